@@ -190,7 +190,8 @@ async def keepalive(
             # A little jitter is added to evenly distribute the keep-alives over time.
             lifetime = settings.peering.lifetime
             duration = min(lifetime, max(1, lifetime - random.randint(5, 10)))
-            await asyncio.sleep(max(1, duration))
+            duration = max(1, duration) if lifetime > 1 else lifetime / 2 if lifetime > 0 else 1
+            await asyncio.sleep(duration)
     finally:
         try:
             await asyncio.shield(touch(
